@@ -199,6 +199,11 @@ Proof.
     now rewrite <- app_assoc.
 Qed.
 
+Lemma merge_keys_law : forall a b,
+  NoDup (keys b) ->
+  keys (merge a b) = keys a ++ filter (fun k => negb (mem k a)) (keys b).
+Proof. intros a b. exact (merge_keys b a). Qed.
+
 (* ------------------------------------------------------------------------------------ *)
 (* the overlay law along key paths, at any depth *)
 
